@@ -332,6 +332,22 @@ def loop_form_custom(prog, ev, rep, e, where):
         prev, eff = alt.a
         if not (prev.k == "phi" and all((x.k == "call" and x.a == ("<vec>",)) or x.k == "loopvar" for x in prev.a)):
             return False
+        if isinstance(eff, Tm) and eff.k == "call" and eff.a[0].endswith("::extend") and len(eff.a) == 3:
+            # vals.extend(list.into_iter().map(|p| Cow::Borrowed(p.inner))): every node of a node list, borrowed, in order
+            it = ev.item_of(eff.a[2])
+            if it.k == "adt" and it.a[0] == "alloc::borrow::Cow" and it.a[1] == "Borrowed" and len(it.a[2]) == 1:
+                pay = it.a[2][0][1]
+                calls = [y for y in subterms(pay) if y.k == "call" and y.a[0] == argp]
+                if len(calls) == 1 and pay.k == "field" and pay.a[1] == "inner" and pay.a[0].k == "call" and pay.a[0].a[0] == "<item>":
+                    c = calls[0]
+                    src = pay.a[0].a[1]
+                    while src.k == "call" and len(src.a) == 2 and src.a[0].rsplit("::", 1)[-1] in ("into_iter", "iter"):
+                        src = src.a[1]
+                    if src == Tm("proj", (Tm("field", (c, "data")), "Data::Refs.0")) and c.a[1].k == "call" and c.a[1].a[0] == "<item>" \
+                            and c.a[1].a[1].k == "param" and c.a[1].a[1].a[0] == 1 and c.a[2].k == "param" and c.a[2].a[0] == 2:
+                        kinds.add("Refs")
+                        continue
+            return False
         if not (isinstance(eff, Tm) and eff.k == "call" and eff.a[0].endswith("::push") and len(eff.a) == 3):
             return False
         x = eff.a[2]
